@@ -95,6 +95,9 @@ type Ctx struct {
 	// SubStart: when a case consists of many sub-inputs and the child died at sub-input k, the
 	// driver restarts the same case with SubStart = k+1 so the rest is still explored.
 	SubStart int
+	// RestartChild: after this case the child process must be replaced (e.g. lal is wedged in
+	// a run-away loop that cannot be cancelled); the driver continues with the next case.
+	RestartChild bool
 
 	mu    sync.Mutex
 	rec   record
@@ -268,6 +271,10 @@ func RunChild(p *Prop, tier string, seed int64, first, stride, n int, only int, 
 		b, _ = json.Marshal(c.rec)
 		c.mu.Unlock()
 		out.Write(append(b, '\n'))
+		if c.RestartChild {
+			out.Close()
+			os.Exit(4)
+		}
 	}
 	return 0
 }
